@@ -48,27 +48,23 @@ def ctxsToJson : Ctxs → Json
 
 def shiftOfJson (j : Json) : Except String Shift :=
   match j with
-  | .str "min" => pure .min
-  | .str "mean" => pure .mean
-  | .str "median" => pure .median
-  | .str "med" => pure .median
-  | .str s => throw s!"unknown shift {s}"
+  | .str s => match shiftOfName s with       -- the model's option table
+    | some sh => pure sh
+    | none => throw s!"unknown shift {s}"
   | _ => do pure (.num (← ratOfJson j))
 
 def sclOfJson (j : Json) : Except String Scl :=
   match j with
-  | .str "minmax" => pure .minmax
-  | .str "std" => pure .std
-  | .str "iqr" => pure .iqr
-  | .str "maxabs" => pure .maxabs
-  | .str s => throw s!"unknown scale {s}"
+  | .str s => match sclOfName s with
+    | some sc => pure sc
+    | none => throw s!"unknown scale {s}"
   | _ => do pure (.num (← ratOfJson j))
 
 def statOfJson (j : Json) : Except String Stat :=
   match j with
-  | .str "mean" => pure .mean
-  | .str "median" => pure .median
-  | .str "mode" => pure .mode
+  | .str s => match statOfName s with
+    | some st => pure st
+    | none => throw s!"unknown stat {s}"
   | _ => throw "unknown stat"
 
 def fitToJson (p : Option (Rat × Rat)) : Json :=
@@ -90,6 +86,23 @@ def fitsOf (cfg : Cfg) : Ctxs → Json
         fitToJson (if potSparse first k then fit sdApprox cfg (fitting.map (getD0 k)) else none)])
         (seenKeys rows [])
   | .scalar rows => Json.arr #[fitToJson (fit sdApprox cfg (window cfg.usingN rows))]
+
+def fitEToJson : Except FitErr (Rat × Rat) → Json
+  | .ok _ => Json.str "ok"
+  | .error .typeError => Json.str "TypeError"
+  | .error .valueError => Json.str "ValueError"
+  | .error .statisticsError => Json.str "StatisticsError"
+  | .error .indexError => Json.str "IndexError"
+
+/-- what the `try` body of `_get_shift_and_scale` does on every window column (all columns, potential or not) -/
+def fitEsOf (cfg : Cfg) : Ctxs → Json
+  | .dense rows => match rows with
+    | [] => Json.arr #[]
+    | first :: _ => ofList (fun k => fitEToJson (fitE sdApprox cfg (col k (window cfg.usingN rows)))) (List.range first.length)
+  | .sparse rows =>
+      let fitting := window cfg.usingN rows
+      ofList (fun k => Json.arr #[Json.str k, fitEToJson (fitE sdApprox cfg (fitting.map (getD0 k)))]) (seenKeys rows [])
+  | .scalar rows => Json.arr #[fitEToJson (fitE sdApprox cfg (window cfg.usingN rows))]
 
 def resToJson : Except Err Ctxs → Json
   | .ok out => ctxsToJson out
@@ -140,6 +153,15 @@ def handle (req : Json) : Except String Json := do
   if op == "variance" then
     let xs ← ratList (← field req "xs")
     return obj [("variance", ratToJson (variance xs)), ("sd", ratToJson (sdApprox xs))]
+  if op == "ragged" then
+    -- `Scale.filter` on dense contexts that may be ragged
+    let rows ← (← arr (← field req "rows")).mapM (fun r => do (← arr r).mapM valOfJson)
+    let cfg : Cfg := { shift := (← shiftOfJson (← field req "shift")), scale := (← sclOfJson (← field req "scale")),
+                       usingN := (← opt nat (fieldD req "using" Json.null)) }
+    return match scaleDenseE sdApprox cfg rows with
+      | .ok out => obj [("model", ctxsToJson (.dense out)), ("rect", Json.bool (Rect rows))]
+      | .error .indexError => obj [("model", obj [("err", Json.str "IndexError")]), ("rect", Json.bool (Rect rows))]
+      | .error .cobaException => obj [("model", obj [("err", Json.str "CobaException")]), ("rect", Json.bool (Rect rows))]
   let kind ← str (← field req "kind")
   let c ← ctxsOfJson kind (← field req "rows")
   -- a keyword that is absent from the request was not passed to the Python call
@@ -160,8 +182,8 @@ def handle (req : Json) : Except String Json := do
         ("using", ofOpt ofNat k.cfg.usingN), ("target", Json.str k.target)]) filters
     let cfg0 : Cfg := match filters with | k :: _ => k.cfg | [] => ⟨.num 0, .num 1, none⟩
     match res with
-    | .ok out => pure (obj [("model", ctxsToJson out), ("fits", fitsOf cfg0 c), ("cfgs", cfgJ)])
-    | .error _ => pure (obj [("model", obj [("err", Json.str "CobaException")]), ("cfgs", cfgJ)])
+    | .ok out => pure (obj [("model", ctxsToJson out), ("fits", fitsOf cfg0 c), ("fites", fitEsOf cfg0 c), ("cfgs", cfgJ)])
+    | .error _ => pure (obj [("model", obj [("err", Json.str "CobaException")]), ("fites", fitEsOf cfg0 c), ("cfgs", cfgJ)])
   | "impute" =>
     let stA : Option (List Stat) ← (if absent "stats" then pure none else do pure (some (← (← arr (← field req "stats")).mapM statOfJson)))
     let indA : Option Bool ← (if absent "ind" then pure none else do pure (some (← bool (← field req "ind"))))
